@@ -39,18 +39,21 @@ fn main() {
     let args: Vec<String> = std::env::args().collect();
     if args.len() > 1 && args[1] == "conc" { conc::main(&args[2..]); return; }
     if args.len() > 1 && args[1] == "sock" { sock::main(&args[2..]); return; }
+    // configuration lines (limit / policy) come first; everything after them is processed line by line, and
+    // each processed line is acknowledged with `done` so that a caller can drive the session interactively
     let stdin = std::io::stdin();
-    let lines: Vec<String> = stdin.lock().lines().map(|l| l.unwrap()).collect();
+    let mut input = stdin.lock().lines();
     let mut limit: u32 = 1048576;
     let mut policy = EvictionPolicy::None;
     let mut mem_limit: u64 = u64::MAX;
-    for l in &lines {
+    let mut pending: Option<String> = None;
+    while let Some(Ok(l)) = input.next() {
         let w: Vec<&str> = l.split_whitespace().collect();
         if w.is_empty() { continue; }
         match w[0] {
             "limit" => limit = w[1].parse().unwrap(),
             "policy" => { if w[1] == "random" { policy = EvictionPolicy::Random; mem_limit = w[2].parse().unwrap(); } }
-            _ => {}
+            _ => { pending = Some(l.clone()); break; }
         }
     }
     let timer = Arc::new(TestTimer(AtomicU64::new(0)));
@@ -60,7 +63,8 @@ fn main() {
     let mut codec = MemcacheBinaryCodec::new(limit);
     let mut buf = BytesMut::with_capacity(4096);
     let mut closed = false;
-    for l in &lines {
+    let rest = pending.into_iter().chain(input.map(|l| l.unwrap()));
+    for l in rest {
         let w: Vec<&str> = l.split_whitespace().collect();
         if w.is_empty() { continue; }
         match w[0] {
@@ -101,5 +105,8 @@ fn main() {
             }
             _ => {}
         }
+        println!("done");
+        use std::io::Write;
+        std::io::stdout().flush().unwrap();
     }
 }
